@@ -206,6 +206,26 @@ var initSteps sync.Map
 var traceCalls = os.Getenv("SYMGO_TRACE_CALLS") != ""
 var traceFn = os.Getenv("SYMGO_TRACE_FN")
 
+// noopResult: zero values, except that interface results get a non-nil
+// object whose methods all do nothing (so `gauge.Set(x)` on a metric obtained
+// from a no-op constructor does not trip over a nil interface).
+func (p *Path) noopResult(res *types.Tuple) Value {
+	one := func(t types.Type) Value {
+		if _, ok := t.Underlying().(*types.Interface); ok && !isErrorType(t) {
+			return Iface{T: types.NewPointer(types.NewStruct(nil, nil)), V: &NativeObj{Kind: "noop"}}
+		}
+		return p.zero(t)
+	}
+	if res.Len() == 1 {
+		return one(res.At(0).Type())
+	}
+	tu := make(Tuple, res.Len())
+	for i := range tu {
+		tu[i] = one(res.At(i).Type())
+	}
+	return tu
+}
+
 var noopPkgPrefixes = []string{
 	"go.uber.org/zap", "github.com/prometheus/client_golang", "github.com/VictoriaMetrics/metrics",
 	"github.com/armon/go-metrics", "github.com/prometheus/client_model",
@@ -270,7 +290,7 @@ func (p *Path) callSSA(caller *frame, fn *ssa.Function, args []Value, env []Valu
 			if res.Len() == 0 {
 				return nil
 			}
-			return p.zero(res)
+			return p.noopResult(res)
 		}
 		panic(unsupported{"callee outside interpreted packages (no model): " + name})
 	}
@@ -529,6 +549,21 @@ func (p *Path) prepareCall(fr *frame, call *ssa.CallCommon) (Value, []Value) {
 		}
 		if recv.T == nil {
 			p.goPanicRuntime("invalid memory address or nil pointer dereference (method " + call.Method.Name() + " called on nil interface)")
+		}
+		if nm, ok := recv.V.(*NativeObj); ok && nm.Kind == "noop" {
+			// an object handed out by a logging / metrics package: every method is a no-op
+			sig := call.Method.Type().(*types.Signature)
+			fn = &NativeFunc{Name: "noop." + call.Method.Name(), F: func(p *Path, g *Goroutine, a []Value) Value {
+				if sig.Results().Len() == 0 {
+					return nil
+				}
+				return p.noopResult(sig.Results())
+			}}
+			args = append(args, recv.V)
+			for _, a := range call.Args {
+				args = append(args, fr.get(a))
+			}
+			return fn, args
 		}
 		if nm, ok := recv.V.(*NativeObj); ok && nm.Methods != nil {
 			if f, ok := nm.Methods[call.Method.Name()]; ok {
